@@ -250,6 +250,14 @@ def run(ctx):
                     if consumer is None:
                         continue
                     n_checked += 1
+                    if _state_restored(prog, g, sites, f, fa, node.id, e, al, res):
+                        # the draw sits in `state = np.random.get_state(); try: ... finally: np.random.set_state(state)`
+                        # and reaches the numpy generator only: the stream every later consumer sees is unchanged
+                        continue
+                    if consumer.startswith("read of property") and _already_read(prog, f, fa, cfg, node.id, part, e, rngfns, res):
+                        # a memoised probe consumes randomness on its first read only: this read is dominated by an
+                        # identical read (same short-circuit prefix), which carries the obligations
+                        continue
                     why = {}  # tainted attribute -> how the consumption depends on it
                     for test, label in fa.guards(node.id):
                         if isinstance(test, ast.expr):
@@ -268,6 +276,110 @@ def run(ctx):
     ctx.ob("R-RNG", "C14.4", "nessai", "taint / control-dependence analysis ran over every RNG-consuming call and property read", True, f"{n_checked} consuming sites checked against tainted attributes {sorted(tainted)}")
     ctx.require(n_checked >= 60, f"only {n_checked} RNG-consuming sites found")
     ctx.assumptions += ["the user's likelihood and prior are deterministic and consume no randomness (premise of the property)", "torch/glasflow distribution sampling draws from torch's global generator", "bit identity itself, fork/pool behaviour and BLAS/torch thread non-determinism are not decided"]
+
+
+def _generators(prog, g, sites, f, e, al, res):
+    """{'numpy', 'torch'}: which global generators the consumer expression e (a call / property read in f) can draw from."""
+    kinds = set()
+    quals = set()
+    if isinstance(e, ast.Call):
+        k = classify_call(e, al)
+        if k and k[0] in ("np-consumer", "scipy-rvs"):
+            kinds.add("numpy")
+        elif k and k[0] == "torch-consumer":
+            kinds.add("torch")
+        elif k:
+            kinds.add("other")
+        quals |= {h.qual for h in (res.resolve_call(f, e, count=False) or [])}
+    else:
+        for c in res.expr_type(f, e.value) or []:
+            m = prog.find_method(c, e.attr)
+            if m is not None:
+                quals.add(m.qual)
+        if not quals:
+            kinds.add("other")
+    reach = set(quals)
+    for q in quals:
+        if q in g:
+            reach |= nx.descendants(g, q)
+    for sf, sn, kind, desc in sites:
+        if sf.qual in reach:
+            kinds.add("numpy" if kind in ("np-consumer", "scipy-rvs") else "torch" if kind == "torch-consumer" else "other")
+    for q in reach:
+        fn = prog.functions.get(q)
+        if fn is not None and fn.module.name.startswith("nessai.flows"):
+            kinds.add("torch")
+    return kinds
+
+
+def _state_restored(prog, g, sites, f, fa, nid, e, al, res):
+    kinds = _generators(prog, g, sites, f, e, al, res)
+    if not kinds or kinds - {"numpy"}:
+        return False
+    stmt = fa.stmt(nid)
+    for t in walk_no_nested(f.node):
+        if not (isinstance(t, ast.Try) and t.finalbody and any(x is stmt for b in t.body for x in ast.walk(b))):
+            continue
+        for s in t.finalbody:
+            if isinstance(s, ast.Expr) and isinstance(s.value, ast.Call) and (dotted(s.value.func) or "").endswith("random.set_state") and len(s.value.args) == 1 and isinstance(s.value.args[0], ast.Name):
+                name = s.value.args[0].id
+                binds = [a for a in walk_no_nested(f.node) if isinstance(a, ast.Assign) and any(isinstance(x, ast.Name) and x.id == name for x in a.targets)]
+                if len(binds) == 1 and isinstance(binds[0].value, ast.Call) and (dotted(binds[0].value.func) or "").endswith("random.get_state") and not binds[0].value.args:
+                    bn = next(iter(fa.find(lambda x, b=binds[0]: x is b)), None)
+                    tn = next(iter(fa.find(lambda x, t=t: x is t, kinds=("try",))), None)
+                    # the snapshot is taken right before the protected block: on every path into it, nothing that draws in between
+                    if bn is not None and fa.dominates(bn, nid) and _adjacent(f.node, binds[0], t):
+                        return True
+    return False
+
+
+def _adjacent(root, a, b):
+    for n in ast.walk(root):
+        for field in ("body", "orelse", "finalbody"):
+            blk = getattr(n, field, None)
+            if isinstance(blk, list) and a in blk and b in blk and blk.index(b) == blk.index(a) + 1:
+                return True
+    return False
+
+
+def _prefix(part, target):
+    """Texts of the operands that must let a short-circuit continue before `target` is evaluated inside `part`."""
+    out = []
+    for n in ast.walk(part):
+        if isinstance(n, ast.BoolOp):
+            for i, v in enumerate(n.values):
+                if any(x is target for x in ast.walk(v)):
+                    out += [(type(n.op).__name__, src(left)) for left in n.values[:i]]
+    return tuple(sorted(out))
+
+
+def _memoised(getter):
+    """The getter computes its value under `if self.<slot> is None:` and stores it in that slot (so only the first read runs
+    the computation)."""
+    for n in walk_no_nested(getter.node):
+        if isinstance(n, ast.If) and isinstance(n.test, ast.Compare) and len(n.test.ops) == 1 and isinstance(n.test.ops[0], ast.Is) and isinstance(n.test.comparators[0], ast.Constant) and n.test.comparators[0].value is None and is_self_attr(n.test.left):
+            slot = n.test.left.attr
+            stores = [s for s in ast.walk(n) if isinstance(s, ast.Assign) and any(is_self_attr(t, slot) for t in s.targets)]
+            outside = [c for s in getter.node.body if s is not n for c in ast.walk(s) if isinstance(c, ast.Call)]
+            if stores and not outside:
+                return True
+    return False
+
+
+def _already_read(prog, f, fa, cfg, nid, part, e, rngfns, res):
+    tys = res.expr_type(f, e.value) or []
+    getters = [prog.find_method(c, e.attr) for c in tys]
+    if not getters or any(g is None or not _memoised(g) for g in getters):
+        return False
+    want = (src(e), _prefix(part, e))
+    for other in cfg.statement_nodes():
+        if other.id == nid or not fa.dominates(other.id, nid):
+            continue
+        for p2 in cfg.own_exprs(other.id):
+            for x in walk_no_nested(p2):
+                if isinstance(x, ast.Attribute) and isinstance(x.ctx, ast.Load) and x is not e and (src(x), _prefix(p2, x)) == want:
+                    return True
+    return False
 
 
 def seed_once_rule(ctx, clause):
